@@ -316,7 +316,7 @@ func (df *DataFile) readToBuf(blockID uint32, offset uint32, buf *bytebufferpool
 		}
 
 		// 对当前 chunk 解码
-		data, chunkType, err := DecodeChunk(block[offset:])
+		data, chunkType, err := DecodeChunk(block[offset:size])
 		if err != nil {
 			return err
 		}
@@ -408,7 +408,7 @@ func (reader *DataReader) next() ([]byte, *DataPos, error) {
 		}
 
 		// 对当前 chunk 解码
-		data, chunkType, err := DecodeChunk(reader.blockBuf[reader.offset:])
+		data, chunkType, err := DecodeChunk(reader.blockBuf[reader.offset:size])
 		if err != nil {
 			return nil, nil, err
 		}
